@@ -65,8 +65,14 @@ fn send_checked(conn: &Connection, payload: &[u8], rep: &mut Report, ctx: &str) 
                     rep.violation("C03|size|refused-within-max", format!("{} bytes refused as too large, advertised maximum {a} ({ctx})", payload.len()), J::obj([("context", J::s(ctx)), ("len", J::u(payload.len() as u64)), ("max", J::u(a as u64))]));
                     Some(false)
                 }
+                (Err(SendDatagramError::NotConnected), _) => {
+                    // the right answer if the connection is in fact gone; why it is gone is settled
+                    // by the caller (connection_lost), which can await the close reason
+                    rep.count("sends_refused_not_connected", 1);
+                    None
+                }
                 (Err(e), _) => {
-                    rep.violation(format!("C03|size|unexpected-error|{e:?}"), format!("send_datagram of {} bytes: {e} on a live connection ({ctx})", payload.len()), J::obj([("context", J::s(ctx))]));
+                    rep.violation(format!("C03|size|unexpected-error|{e:?}"), format!("send_datagram of {} bytes: {e} ({ctx})", payload.len()), J::obj([("context", J::s(ctx))]));
                     Some(false)
                 }
             }
@@ -83,6 +89,27 @@ fn send_checked(conn: &Connection, payload: &[u8], rep: &mut Report, ctx: &str) 
             rep.count("size_cases_skipped_limit_moved", 1);
             r.ok().map(|_| true)
         }
+    }
+}
+
+/// A send answered `NotConnected`: correct iff the connection is gone. If the endpoint itself ended
+/// it with a local protocol error while only datagrams and well-formed streams were exchanged, that
+/// is the finding; if the peer, the path or a timer ended it, the case says nothing about C03.
+async fn connection_lost(conn: &Connection, rep: &mut Report, ctx: &str, tiny_peer_buffer: bool) {
+    match within(ms(1500), conn.closed()).await {
+        // harness artifact, not an observation about the endpoint: a quinn receiver whose datagram
+        // buffer is N bytes advertises max_datagram_frame_size = N but refuses ("oversized
+        // datagram") every datagram whose payload + 32 bytes of bookkeeping exceeds N; with the
+        // tiny buffers of the peer-limit matrix the raw peer therefore closes the connection after
+        // a datagram that respects the advertised limit
+        Waited::Done(wtransport::error::ConnectionError::ConnectionClosed(c)) if tiny_peer_buffer && format!("{c:?}").contains("oversized datagram") => rep.count("raw_peer_closed_on_its_own_buffer_limit", 1),
+        Waited::Done(wtransport::error::ConnectionError::LocalH3Error(e)) => rep.violation(
+            "C03|size|connection-ended-by-endpoint",
+            format!("send_datagram answered NotConnected because the endpoint had closed the connection itself with {e} ({ctx})"),
+            J::obj([("context", J::s(ctx))]),
+        ),
+        Waited::Done(e) => rep.inconclusive(format!("{ctx}: connection ended during the case: {e:?}")),
+        Waited::TimedOut => rep.violation("C03|size|not-connected-on-live-connection", format!("send_datagram answered NotConnected but closed() is still pending 1.5 s later ({ctx})"), J::obj([("context", J::s(ctx))])),
     }
 }
 
@@ -149,8 +176,13 @@ async fn pair_traffic(args: &Args, multi: bool, relay: bool, library_defaults: b
                     let p = dgram_payload(side * 16 + t, seq, len, &mut rng);
                     let cls = format!("{ctx}|len={}", if len <= 11 { "short" } else if len + 3 >= m && len <= m { "at-max" } else if len > m { "over-max" } else { "mid" });
                     rep.eval(cls);
+                    let before = rep.counters.get("sends_refused_not_connected").copied().unwrap_or(0);
                     if let Some(true) = send_checked(&conn, &p, &mut rep, &ctx) {
                         sent.lock().unwrap().push(p);
+                    }
+                    if rep.counters.get("sends_refused_not_connected").copied().unwrap_or(0) != before {
+                        connection_lost(&conn, &mut rep, &ctx, false).await;
+                        break;
                     }
                     if seq % 16 == 0 {
                         tokio::time::sleep(ms(1)).await;
@@ -258,31 +290,7 @@ async fn limit_case(role: Role, limit: Option<usize>, burn: usize, rep: &mut Rep
         (None, _) => {}
     }
     let mut rng = Rng::new(limit.unwrap_or(7) as u64 * 31 + burn as u64);
-    let lens: Vec<usize> = match m {
-        Some(x) => vec![0, 1, x.saturating_sub(1), x, x + 1, x + 2],
-        None => vec![0, 1, 2, 10],
-    };
-    let mut sent_ok = vec![];
-    for len in lens {
-        let p = rng.bytes(len);
-        if let Some(true) = send_checked(&live.conn, &p, rep, &ctx) {
-            sent_ok.push(p);
-        }
-    }
-    // what the raw peer received must be exactly quarter-id ‖ payload
-    tokio::time::sleep(ms(60)).await;
-    let got = live.peer.datagrams();
-    for d in &got {
-        match refcodec::datagram::decode(d) {
-            Ok((q, off)) if q == live.sid / 4 => {
-                if !sent_ok.iter().any(|p| p[..] == d[off..]) {
-                    rep.violation("C03|wire|payload-altered", format!("datagram on the wire carries a payload the application did not send ({ctx})"), J::obj([("context", J::s(ctx.clone())), ("wire", J::s(hex_head(d, 24)))]));
-                }
-            }
-            other => rep.violation("C03|wire|quarter-id", format!("datagram on the wire: {other:?}, session id {} ({ctx})", live.sid), J::obj([("context", J::s(ctx.clone())), ("wire", J::s(hex_head(d, 24)))])),
-        }
-    }
-    rep.count("limit_datagrams_on_wire", got.len() as u64);
+    // (first, while the raw peer has not yet met a datagram larger than its own buffer allows)
     // raw -> application with every quarter-id encoding length
     if limit.is_some() {
         let mut want = vec![];
@@ -307,6 +315,37 @@ async fn limit_case(role: Role, limit: Option<usize>, burn: usize, rep: &mut Rep
         }
         rep.count("raw_to_app_datagrams", got.len() as u64);
     }
+    let lens: Vec<usize> = match m {
+        Some(x) => vec![0, 1, x.saturating_sub(1), x, x + 1, x + 2],
+        None => vec![0, 1, 2, 10],
+    };
+    let mut sent_ok = vec![];
+    for len in lens {
+        let p = rng.bytes(len);
+        let before = rep.counters.get("sends_refused_not_connected").copied().unwrap_or(0);
+        if let Some(true) = send_checked(&live.conn, &p, rep, &ctx) {
+            sent_ok.push(p);
+        }
+        if rep.counters.get("sends_refused_not_connected").copied().unwrap_or(0) != before {
+            connection_lost(&live.conn, rep, &ctx, limit.is_some()).await;
+            live.shutdown();
+            return;
+        }
+    }
+    // what the raw peer received must be exactly quarter-id ‖ payload
+    tokio::time::sleep(ms(60)).await;
+    let got = live.peer.datagrams();
+    for d in &got {
+        match refcodec::datagram::decode(d) {
+            Ok((q, off)) if q == live.sid / 4 => {
+                if !sent_ok.iter().any(|p| p[..] == d[off..]) {
+                    rep.violation("C03|wire|payload-altered", format!("datagram on the wire carries a payload the application did not send ({ctx})"), J::obj([("context", J::s(ctx.clone())), ("wire", J::s(hex_head(d, 24)))]));
+                }
+            }
+            other => rep.violation("C03|wire|quarter-id", format!("datagram on the wire: {other:?}, session id {} ({ctx})", live.sid), J::obj([("context", J::s(ctx.clone())), ("wire", J::s(hex_head(d, 24)))])),
+        }
+    }
+    rep.count("limit_datagrams_on_wire", got.len() as u64);
     if rep.samples.len() < 8 {
         rep.sample(J::obj([("context", J::s(ctx)), ("max_datagram_size", match m { Some(x) => J::u(x as u64), None => J::Null }), ("quarter_id_header", J::u(header as u64))]));
     }
